@@ -42,8 +42,9 @@ def obligations(tier, seed):
         d.update(kw)
         return d
 
-    SEQ_DEF = dict(W_MAXLINES=1, C19_MAXLINES=1, W_NBUF=3, C19_SENDBYTES=88, C19_SENDLOG=8, C19_NIO=8, C19_NUPD=8, NCL=2, NQ=0)
-    SEQ_UW = dict(uw); SEQ_UW.update({"c19_log_send.0": 89, "c19_log_send.1": 9})
+    SEQ_DEF = dict(W_MAXLINES=1, C19_MAXLINES=1, W_NBUF=3, C19_SENDBYTES=88, C19_SENDLOG=12, C19_NIO=12, C19_NUPD=8, NCL=2, NQ=0)   # <= 12 send() calls per run (asserted)
+    SEQ_UW = dict(uw); SEQ_UW.update({"c19_log_send.0": 89})
+    SEQ_UNW = 14          # > C19_NIO, C19_SENDLOG
     # SEQ with frames of several lines was built and dropped: the daemon's filter reads `lines[idx].id' through PROXY_QUEUE (declared lines[1]); for idx >= 1 cbmc 6.11
     # gives an unconstrained value on a typed buffer object (the message length becomes symbolic: no symex end in 250 s) and untyped buffers (byte arrays with the
     # list pointers inside) cost > 300 s for 4 events.  Filtering and order of multi-line frames are decided by delivery_step (untyped buffers, one delivery).
@@ -158,12 +159,19 @@ def obligations(tier, seed):
            outside="raw services; frames longer than 3 lines (the filter loop is uniform in the line index: argument, not solver)",
            defines=dict(W_NBUF=3, NCL=2, C19_NIO=4, C18_MSG_BYTES=1),
            grid=[g(W_MAXLINES=2, C19_MAXLINES=2, LC=2, NQ=2, ACT=0, CUR0=0, CUR1=0), g(W_MAXLINES=2, C19_MAXLINES=2, LC=2, NQ=2, ACT=1, CUR0=0, CUR1=1),
-                 g(W_MAXLINES=2, C19_MAXLINES=2, LC=1, NQ=1, ACT=0, CUR0=0, CUR1=9), g(W_MAXLINES=2, C19_MAXLINES=2, LC=0, NQ=1, ACT=0, CUR0=0, CUR1=0),
+
                  g(W_MAXLINES=3, C19_MAXLINES=3, LC=3, NQ=2, ACT=0, CUR0=1, CUR1=0), g(W_MAXLINES=3, C19_MAXLINES=3, LC=3, NQ=1, ACT=1, CUR0=9, CUR1=0),
                  g(W_MAXLINES=3, C19_MAXLINES=3, LC=2, NQ=3, ACT=0, CUR0=0, CUR1=2)],
            quick_grid=[g(W_MAXLINES=2, C19_MAXLINES=2, LC=2, NQ=2, ACT=0, CUR0=0, CUR1=0), g(W_MAXLINES=2, C19_MAXLINES=2, LC=2, NQ=2, ACT=1, CUR0=0, CUR1=1),
                        g(W_MAXLINES=3, C19_MAXLINES=3, LC=3, NQ=1, ACT=1, CUR0=9, CUR1=0)],
            reach=["end", "filtered", "all"], timeout=300, mem_gb=2, vin_size=4096, **common),
+        Ob("delivery_step_short_frame", func="h_deliver", unwind=6, unwindset=dict(uw, **{"c19_log_send.0": 17, "c19_log_send.1": 5}),
+           desc="queue INV-STEP, delivery of a frame with one line or none (as delivery_step): a frame without lines is still delivered, once, with its time stamp",
+           encodes=["vbi_proxyd_send_sliced", "vbi_proxy_queue_release_sliced", "vbi_proxy_msg_write", "vbi_proxy_msg_handle_write"],
+           bounds="one delivery; 2-line buffers, LC = 0..1", assumes=INV, outside="as delivery_step",
+           defines=dict(W_NBUF=3, NCL=2, C19_NIO=4, C18_MSG_BYTES=1, W_MAXLINES=2, C19_MAXLINES=2, NQ=1, ACT=0, CUR0=0), tier="thorough",
+           grid=[g(LC=1, CUR1=9), g(LC=0, CUR1=0)],
+           reach=["end", "all"], timeout=300, mem_gb=2, vin_size=4096, **common),
         Ob("service_step", func="h_svc", unwind=6, unwindset=uw,
            desc="service INV-STEP: vbi_proxyd_take_service_req (the body of CONNECT_REQ and SERVICE_REQ) with symbolic services at strictness STRICTV, from every invariant "
                 "state (other client symbolic; device open with NQ frames queued, or closed and openable), the device granting an arbitrary subset on every call: the request "
@@ -179,7 +187,7 @@ def obligations(tier, seed):
            defines=dict(W_MAXLINES=1, C19_MAXLINES=1, W_NBUF=2, NCL=2, KSTATE=0),
            grid=[g(ACT=a, DEVOPEN=1, NQ=q, STRICTV=s, BDEV=0) for (a, q, s) in ((0, 1, 0), (1, 1, 2), (1, 2, 1), (0, 2, 0))] +
                 [g(ACT=a, DEVOPEN=0, NQ=0, STRICTV=s, BDEV=0, DEVCASE=0, PREVLINES=p) for (a, s, p) in ((0, 0, 0), (1, 1, 1), (1, 2, 0), (0, -1, 1))] +
-                [g(ACT=0, DEVOPEN=1, NQ=1, STRICTV=0, BDEV=1)],
+                [],
            quick_grid=[g(ACT=0, DEVOPEN=1, NQ=1, STRICTV=0, BDEV=0), g(ACT=1, DEVOPEN=1, NQ=1, STRICTV=2, BDEV=0),
                        g(ACT=0, DEVOPEN=0, NQ=0, STRICTV=0, BDEV=0, DEVCASE=0, PREVLINES=0), g(ACT=1, DEVOPEN=0, NQ=0, STRICTV=1, BDEV=0, DEVCASE=0, PREVLINES=1)],
            reach=["end", "open"], timeout=400, mem_gb=2, vin_size=4096, **common),
@@ -188,8 +196,8 @@ def obligations(tier, seed):
                 "(capture object deleted once, buffers freed, no file descriptor left in the select set)",
            encodes=["vbi_proxyd_take_service_req", "vbi_proxyd_update_services", "vbi_proxy_stop_acquisition", "vbi_proxy_queue_allocate", "vbi_proxy_queue_free_all"],
            bounds="one request; 2 clients; device open, no frame queued", assumes=INV, outside="as service_step",
-           defines=dict(W_MAXLINES=1, C19_MAXLINES=1, W_NBUF=2, NCL=2, DEVOPEN=1, NQ=0, BDEV=0),
-           grid=[g(ACT=0, STRICTV=-1), g(ACT=1, STRICTV=0), g(ACT=1, STRICTV=2)], quick_grid=[g(ACT=0, STRICTV=-1)],
+           defines=dict(W_MAXLINES=1, C19_MAXLINES=1, W_NBUF=2, NCL=2, DEVOPEN=1, NQ=0),
+           grid=[g(ACT=0, STRICTV=-1, BDEV=0), g(ACT=1, STRICTV=0, BDEV=0), g(ACT=1, STRICTV=2, BDEV=0), g(ACT=0, STRICTV=0, BDEV=1)], quick_grid=[g(ACT=0, STRICTV=-1, BDEV=0)],
            reach=["end", "open", "closed"], timeout=300, mem_gb=2, vin_size=4096, **common),
         Ob("service_step_noopen", func="h_svc", unwind=6, unwindset=uw,
            desc="service INV-STEP, the closed device cannot be opened (vbi_capture_v4l2_new and vbi_capture_v4l_new fail): the request is refused, the request table "
@@ -207,25 +215,25 @@ def obligations(tier, seed):
            defines=dict(W_MAXLINES=1, C19_MAXLINES=1, W_NBUF=2, NCL=2, KSTATE=1, DEVOPEN=1, BDEV=0),
            grid=[g(ACT=0, NQ=1, STRICTV=0), g(ACT=1, NQ=2, STRICTV=1), g(ACT=1, NQ=1, STRICTV=-1)], quick_grid=[g(ACT=0, NQ=1, STRICTV=0)],
            reach=["end", "closed", "closed_with_cursor"], timeout=300, mem_gb=2, vin_size=4096, **common),
-        Ob("seq_schedule", func="h_seq", unwind=10, unwindset=SEQ_UW, desc=SEQ_DESC,
+        Ob("seq_schedule", func="h_seq", unwind=SEQ_UNW, unwindset=SEQ_UW, desc=SEQ_DESC,
            encodes=SEQ_ENC, bounds=SEQ_BOUNDS, outside=SEQ_OUT, assumes=SEQ_ASS,
            defines=SEQ_DEF, grid=sched_t, quick_grid=sched_q,
            reach=["end", "delivered"], timeout=300, mem_gb=2, vin_size=4096, **common),
-        Ob("seq_revoke", func="h_seq", unwind=10, unwindset=SEQ_UW,
+        Ob("seq_revoke", func="h_seq", unwind=SEQ_UNW, unwindset=SEQ_UW,
            desc="SEQ, the device revokes services: as seq_schedule, but the k-th service re-computation call of the run (bit k of REVOKE) is answered with 'nothing' - what a "
                 "norm change or a conflicting request of a client earlier in the list does to vbi_capture_update_services.  Schedules in which the client that loses its "
                 "services has nothing pending: it gets no more frames, every other client gets every frame once",
            encodes=SEQ_ENC, bounds=SEQ_BOUNDS, outside=SEQ_OUT, assumes=SEQ_ASS,
            defines=SEQ_DEF, grid=revoke_ok_t, quick_grid=revoke_ok_q,
            reach=["end", "delivered", "reply"], timeout=300, mem_gb=2, vin_size=4096, **common),
-        Ob("seq_revoked_client_keeps_queue", func="h_seq", unwind=10, unwindset=SEQ_UW,
+        Ob("seq_revoked_client_keeps_queue", func="h_seq", unwind=SEQ_UNW, unwindset=SEQ_UW,
            desc="SEQ, defect G reached by daemon events: a frame is pending for client 0; client 1 sends SERVICE_REQ, in the re-computation the device grants client 0 "
                 "nothing any more; the next frame is captured; both clients read: client 0 still gets its pending frame and the frames captured until its queue is drained "
                 "(without lines), client 1 gets every frame once, the daemon does not abort",
            encodes=SEQ_ENC, bounds=SEQ_BOUNDS, outside=SEQ_OUT, assumes=SEQ_ASS,
            defines=SEQ_DEF, grid=revoke_g_t, quick_grid=revoke_g_q,
            reach=["end", "delivered", "reply"], timeout=300, mem_gb=2, vin_size=4096, **common),
-        Ob("seq_device_closed_with_frames_pending", func="h_seq", unwind=10, unwindset=SEQ_UW,
+        Ob("seq_device_closed_with_frames_pending", func="h_seq", unwind=SEQ_UNW, unwindset=SEQ_UW,
            desc="SEQ, defect K reached by daemon events: the device is closed while a client still has a frame pending - because the daemon is told to terminate "
                 "(event 10: vbi_proxyd_destroy closes the devices, then the connections), or because the last client that is granted anything leaves / the device grants "
                 "nothing any more: the frames are freed, so no client keeps a cursor (no use after free in vbi_proxyd_close / vbi_proxyd_send_sliced), nothing more is sent",
